@@ -19,7 +19,7 @@ RULE = ("Two kinds of cases. (a) EventMap call histories: add (sources from a po
         "coinciding with its clear. Distinct = canonical JSON.")
 BUDGET = {"quick": (16, 300), "thorough": (16, 8000)}
 ESSENTIAL = ["kind:map", "kind:sim", "repeat_then_new", "frozen_add_refused", "trigger_and_clear",
-             "mode:level", "mode:rise", "mode:fall", "enable_partial", "index_absent"]
+             "mode:level", "mode:rise", "mode:fall", "enable_partial", "index_absent", "sources>=64", "source_in_two_maps"]
 ASSUMPTIONS = ["edge modes compare with the previous cycle's input, initially low",
                "the pending mask is read directly from Monitor.pending"]
 MODES = ["level", "rise", "fall"]
@@ -33,6 +33,7 @@ def _map_spec():
         (3, st.tuples(st.just("index"), st.integers(0, 7)).map(list)),
         (1, st.tuples(st.just("index_bad"), st.sampled_from(["int", "none"])).map(list)),
         (1, st.just(["freeze"])),
+        (3, st.tuples(st.just("add_other"), st.integers(0, 7)).map(list)),     # the same source added to a second map
     )
     return st.fixed_dictionaries({"kind": st.just("map"),
                                   "ops": st.lists(op, min_size=4, max_size=25)})
@@ -41,11 +42,14 @@ def _map_spec():
 @st.composite
 def _sim_spec(draw, tier):
     n = draw(st.integers(0, 10))
+    if draw(st.integers(0, 14)) == 0:
+        n = draw(st.sampled_from([63, 64, 65, 70, 127, 128, 130]))     # beyond one 64-bit word of events
     modes = [draw(st.sampled_from(MODES)) for _ in range(n)]
     order = draw(st.lists(st.integers(0, max(n - 1, 0)), min_size=0, max_size=2 * n)) if n else []
     m = (1 << n) - 1
-    mask = st.one_of(st.integers(0, m), st.sampled_from([0, m, 1, m >> 1]))
-    ncyc = draw(st.integers(4, 40 if tier == "quick" else 100))
+    mask = st.one_of(st.integers(0, m), st.sampled_from([0, m, 1, m >> 1]),
+                     st.integers(0, max(n - 1, 0)).map(lambda k: 1 << k))
+    ncyc = draw(st.integers(4, 40 if tier == "quick" else 100)) if n <= 10 else draw(st.integers(8, 24))
     cycles = draw(st.lists(st.tuples(mask, mask, mask).map(list), min_size=ncyc, max_size=ncyc))
     return {"kind": "sim", "modes": modes, "order": order, "trigger": draw(st.sampled_from(MODES)),
             "cycles": cycles}
@@ -60,6 +64,7 @@ def _check_map(spec, stats):
     stats.label("kind:map")
     pool = [event.Source(trigger=MODES[i % 3], path=(f"s{i}",)) for i in range(8)]
     emap = event.EventMap()
+    other, other_model = event.EventMap(), []
     model = []       # sources in order of first addition
     frozen = False
     last_was_repeat = False
@@ -129,6 +134,16 @@ def _check_map(spec, stats):
         elif op[0] == "freeze":
             emap.freeze()
             frozen = True
+        elif op[0] == "add_other":
+            s2 = pool[op[1]]
+            other.add(s2)
+            if not any(x is s2 for x in other_model):
+                other_model.append(s2)
+            if any(x is s2 for x in model) and model.index(s2) != other_model.index(s2):
+                stats.label("source_in_two_maps")
+            for i2, x in enumerate(other_model):
+                if other.index(x) != i2:
+                    raise Violation("C13/map/index", f"{where}: second map index {other.index(x)}, model {i2}")
         verify(where)
 
 
@@ -207,6 +222,7 @@ def _check_sim(spec, stats):
     sim.simulate(top, tb)
     stats.add("simulated_cycles", len(spec["cycles"]))
     stats.label("shuffled_order", first != list(range(n)))
+    stats.label("sources>=64", n >= 64)
     stats.nontrivial = n >= 3 and len(set(modes)) >= 2 and stats.has("trigger_and_clear")
 
 
